@@ -161,6 +161,8 @@ class ExprMixin:
         return VStr(self.fresh('fstr'), None)      # DESIGN 3.2(4): message text is opaque, parts not evaluated
 
     def e_Name(self, e):
+        if self.fresh_acc and self.frame is not None:
+            self.fresh_acc.pop((id(self.frame), e.id), None)     # the name is read: no longer a pristine accumulator
         return self.lookup(e.id)
 
     def lookup(self, name):
